@@ -87,7 +87,7 @@ theorem imports_admissible (W : World U) : ∀ (ops : List Op) {s : St} {g : Blk
       cases op with
       | insert chain coins =>
         have := stable_importChain W (good_stable W g t0) h chain hop.2 coins
-        exact ⟨this.2 trivial, this.1 (this.2 trivial)⟩
+        exact ⟨this.2.1 trivial, this.1 (this.2.1 trivial)⟩
       | setHead n => exact hop.1.elim
       | reopen => exact ⟨by simp [step], good_reopen W h⟩
     have hrest := ih hstep.2 (fun op' hop' => by
